@@ -133,7 +133,7 @@ theorem mkEdit_fresh (a : Ghost) (o : Opts) (orc : Orc) :
     exact mkLeaf_fresh a x t
   | list fcs ih =>
     intro hnd hkd t hkt hft fp tp
-    have hnd' := (ndL_iff fcs).mp (by simpa [Tree.noDict] using hnd)
+    have hnd' := (noDictL_iff fcs).mp (by simpa [Tree.noDict] using hnd)
     have hkd' := (kd_list fcs).mp hkd
     cases t with
     | list tcs =>
@@ -235,7 +235,7 @@ theorem mkEdit_fresh (a : Ghost) (o : Opts) (orc : Orc) :
     simp [Tree.noDict] at hnd
   | fdict fkv ih =>
     intro hnd hkd t hkt hft fp tp
-    have hnd' := (ndKV_iff fkv).mp (by simpa [Tree.noDict] using hnd)
+    have hnd' := (noDictKV_iff fkv).mp (by simpa [Tree.noDict] using hnd)
     have hkd' := (kd_fdict fkv).mp hkd
     cases t with
     | fdict tkv =>
